@@ -44,7 +44,7 @@ pub(crate) struct World {
 /// afterwards with `set_limits` — a symbolic scalar inside a struct that is moved (memcpy) makes every later
 /// read of that struct a symbolic byte-array read and multiplies the formula size by ~15.
 pub(crate) fn vk_world(qcap: usize, lfu: TinyLFU) -> World {
-    unsafe { vs::MONITOR = true; }
+    unsafe { vs::MONITOR = true; vs::EDGES_ON = crate::cache::vk_cfg::LOCK_EDGES; }
     let stats = stk::vk_fresh();
     let config = cfk::vk_config(1, qcap, 1, 2);
     let store = sk::vk_store(stats.clone());
@@ -765,6 +765,43 @@ fn c13_command_behind_shutdown_is_answered() {
     assert!(status_of(&behind) == Poll::Ready(CommandStatus::ShuttingDown) && status_of(&behind2) == Poll::Ready(CommandStatus::ShuttingDown), "C13: everything queued behind Shutdown is answered ShuttingDown");
     assert!(sk::vk_peek(&c.store, &102).is_none() && sk::vk_peek(&c.store, &101).is_some(), "C13: commands behind Shutdown are not executed");
     assert!(cek::vk_queue_len(&c.command_executor) == 0, "C13: the drain loop leaves nothing unanswered");
+    vs::edge_covers();
+    core::mem::forget(w);
+}
+
+static mut G_LATE: Option<Ack> = None;
+static mut G_LATE_ERR: bool = false;
+/// a writer that is already past the shutdown gate sends its command now
+fn interfering_send(_site: u32) {
+    unsafe {
+        match (&*G_CACHE).command_executor.send(crate::cache::command::CommandType::Delete(103)) {
+            Ok(a) => { G_LATE = Some(core::mem::ManuallyDrop::new(a)); }
+            Err(_) => { G_LATE_ERR = true; }
+        }
+    }
+}
+/// C13/C12 / P4: a write that already passed the shutdown gate sends its command at a solver-chosen point
+/// WHILE the worker processes the Shutdown command and drains the queue (any queue / lock / flag operation of
+/// the worker is a candidate point).  Whatever the point: the send either fails, or its acknowledgement is
+/// resolved (real outcome or ShuttingDown) by the time the worker has nothing left to do - never pending.
+#[kani::proof]
+#[kani::unwind(6)]
+fn c13_late_send_races_drain() {
+    mk_empty_world!(w, 4, 1000);
+    any_now();
+    let c = &w.cache;
+    unsafe { G_CACHE = c as *const CacheD<u64, u64>; G_LATE = None; G_LATE_ERR = false; }
+    let sd = hold(c.command_executor.shutdown());
+    let behind = hold(c.command_executor.send(crate::cache::command::CommandType::Delete(101)));
+    vs::set_hook(interfering_send, 1);
+    cek::vk_run_worker(w.worker);
+    vs::clear_hook();
+    assert!(status_of(&sd) == Poll::Ready(CommandStatus::Accepted) && status_of(&behind) == Poll::Ready(CommandStatus::ShuttingDown), "C13: Shutdown acknowledged, the command behind it answered ShuttingDown");
+    if let Some(a) = unsafe { G_LATE.as_ref() } {
+        assert!(status_of(a) != Poll::Pending, "C13: every acknowledgement handed out during shutdown completes (real outcome or ShuttingDown) - no caller waits forever");
+    }
+    kani::cover!(unsafe { G_LATE.is_some() }, "the late send was accepted by the queue");
+    kani::cover!(unsafe { G_LATE_ERR }, "opt: the late send failed (receiver already gone)");
     vs::edge_covers();
     core::mem::forget(w);
 }
